@@ -241,6 +241,13 @@ func c07main(c *Ctx) {
 		var want []flatKV
 		flattenRef("", ref, &want)
 
+		// the record before this one died in a value that panics while being formatted (the application recovered):
+		// nothing of it belongs to this record
+		afterDoomed := r.P(10)
+		if afterDoomed {
+			doomedRecord(f, w)
+			c.R.Add("cases_after_a_recovered_panicking_record", 1)
+		}
 		evs := capture(log, func() {
 			if nilCtx {
 				lg.InfoContext(nil, "probe", args...) //nolint:staticcheck // nil context is in the property's domain
@@ -248,7 +255,7 @@ func c07main(c *Ctx) {
 				lg.InfoContext(ctx, "probe", args...)
 			}
 		})
-		desc := map[string]any{"format": f.String(), "inherit_flag": inherit, "depth": depth, "ctx": descList(ctxList), "registered_ctx_keys": keyDesc, "nil_ctx": nilCtx, "call": descList(call)}
+		desc := map[string]any{"format": f.String(), "inherit_flag": inherit, "depth": depth, "ctx": descList(ctxList), "registered_ctx_keys": keyDesc, "nil_ctx": nilCtx, "call": descList(call), "after_recovered_panicking_record": afterDoomed}
 		for d := 0; d < depth; d++ {
 			desc[fmt.Sprintf("logger%d_attrs", d)] = descList(own[d])
 		}
